@@ -9,6 +9,8 @@ from pathlib import Path
 from typing import Any, Dict, List, Optional, Tuple
 
 from harness.extract import nondet as x_nondet
+from harness.extract import nondet_seeding as x_seeding
+from harness.extract import sharedstate as x_shared  # C04's extractor, imported read-only
 from harness.lib import scen
 from harness.lib.core import REPO, SRC, VERIF, Ctx, Rng, lean_lock, run_driver
 from harness.rigs import envrig, xproc
@@ -16,30 +18,58 @@ from harness.rigs import nondet_sites as sites
 
 MANIFEST = {
     "text": "Lean 4 proof, PARTIAL. Model: a run is a function of an explicit opaque environment rho (stream of unseeded identifiers - uuid4, "
-            "generated MACs -, stream of wall-clock/unseeded readings, and for every iteration of a hash-ordered set the order in which its "
-            "elements come out); the simulator is ANY program over an interface in which identifiers are equality tokens, readings reach "
-            "state only through the length of their text inside Frame.size, sets are iterated only through named consumers, and random draws "
-            "come from the seeded generator. Proved for every such simulator, schedule, seed and operation list (steps, resets with or without "
-            "seed): the canonical trajectory is the same under any two valid environments whose readings have texts of equal length "
-            "(C03_run_indep_of_env; without that side condition for a simulator that never sizes a frame from a reading); the episode after "
-            "reset(seed=s) is a function of (schedule, episode index, s, later operations) only, whatever the history (C03_reseed_reproduces); "
-            "each modelled set consumer (sorted iteration, set-to-set, length-only, dict-by-key, no-effect loop, empty/singleton set) is "
-            "permutation-invariant; every duplicate-free dependencies-first evaluation order yields the same reward table; the full "
-            "statement is refuted by the Frame.size witness (C03_full_counterexample, finding F-9). Translator tie: the nondeterminism "
-            "inventory of the whole tree (every iterated set, uuid, secrets, clock, time, id(), hash(), urandom, random/np.random use) is "
-            "regenerated as Gen/Nondet.lean and must equal, site for site, the committed discharge table (C03_inventory_discharged); reasons "
-            "resting on reading rather than on a lemma are marked byReading. Correspondence tie: identical (scenario, seed, operations) in "
-            "fresh interpreters with different PYTHONHASHSEED and logging fully on / fully off, diffed step by step on (observation, reward, "
-            "agent actions and responses, complete histories), plus re-seeded episodes compared inside each process, plus the consumer "
-            "models against the real nmap / from_config / topological_sort code.",
-    "note": "C03-specific: that the inventory is complete is the extractor's job (syntactic, name-based set tracking); that CPython behaves as "
-            "rho says (fresh uuids distinct, int hashing is the identity, dict order = insertion order) is trusted; F-9 is replayed with a "
-            "pinned clock because it cannot be hit by re-running.",
-    "technique": "Lean 4 relational proof over an effect-interpreter with an explicit opaque environment; regenerated inventory + committed "
-                 "discharge table; cross-process differential rig",
+            "generated MACs -, stream of wall-clock/unseeded readings, for every iteration of a hash-ordered set the order in which its elements "
+            "come out, and a stream of OS entropy for generators nobody seeded); the simulator is ANY program over an interface in which "
+            "identifiers are equality tokens, readings reach state only through the length of their text inside Frame.size, sets are iterated "
+            "only through named consumers, and random draws name their generator FAMILY (python random / numpy global / torch / gymnasium's "
+            "per-space generator): a draw from a family the code seeds reads that family's seeded stream, a draw from any other family reads rho. "
+            "Proved for every such simulator, schedule, seed and operation list (steps, resets with or without seed, foreign draws): the canonical "
+            "trajectory is the same under any two valid environments whose readings have texts of equal length (C03_run_indep_of_env; without "
+            "that side condition for a simulator that never sizes a frame from a reading); the episode after reset(seed=s) is a function of "
+            "(schedule, episode index, s, later operations) only, whatever the history (C03_reseed_reproduces), and so are the generator states "
+            "right after it (C03_generators_after_reseed). The SEEDING PATH AS WRITTEN is data (SeedShape: the guard chain of set_random_seed "
+            "and the test reset applies to its seed argument): for every s >= 0 INCLUDING 0 env.reset(seed=s) re-seeds with s, None and -1 leave "
+            "the generators alone, s < -1 raises (C03_reset_seed_spec), hence re-seeding reproduces the episode for every seed value in the "
+            "caller's vocabulary (C03_code_reseed_reproduces); refuted alternatives: a truthiness test on the seed (C03_truthy_seed_test_"
+            "counterexample), building the game before seeding (C03_build_before_seed_counterexample), a draw from a family that is not seeded "
+            "(C03_unseeded_family_counterexample = finding F-C03-1, repaired), a foreign draw between reset and step (C03_foreign_draw_"
+            "counterexample). Each modelled set consumer is permutation-invariant; every duplicate-free dependencies-first evaluation order "
+            "yields the same reward table; the cycle check and the dependencies-first property for every neighbour order are C10's theorem, "
+            "imported. The full statement is refuted by the Frame.size witness (C03_full_counterexample, finding F-9, open). Translator tie: (1) "
+            "the nondeterminism inventory of the whole tree (every iterated set, uuid, secrets, clock, time, id(), hash(), urandom, random / "
+            "np.random / torch / gymnasium-space draw, ordering or text use of an identifier) is regenerated as Gen/Nondet.lean WITH one "
+            "mechanical fact per site (generator family and evaluation time of a draw, constant secret length, sinks of a clock reading by a "
+            "forward data-flow, exclude= keyword, import closure, uses of a declared set, int element type, __hash__ body, never-written "
+            "attribute) and must equal, site for site, the committed discharge table (C03_inventory_discharged); the premise each reason needs "
+            "is checked against the site's fact (C03_facts_support_discharges, C03_decl_uses_discharged, C03_identifier_uses); (2) the shape of "
+            "set_random_seed / __init__ / reset is regenerated as Gen/NondetSeeding.lean and must be the shape the theorems are about, with "
+            "seeding before the construction of the game (C03_gen_seed_shape, C03_gen_seed_before_build) and every draw made at call time from a "
+            "seeded family (C03_gen_draw_families_seeded). Of 68 discharges 17 rest on a model lemma alone, 40 on a mechanical fact plus a lemma "
+            "for the kind, 7 on a mechanical fact plus a trusted runtime fact, 4 are attributed to F-9 (C03_discharge_counts); none rests on "
+            "reading alone. Correspondence tie: identical (scenario, seed, operations) in fresh interpreters whose PYTHONHASHSEED values are "
+            "chosen to give pairwise different set orders of the scenario's string vocabularies, logging fully on / fully off, diffed step by step "
+            "on (observation, reward, agent actions and responses, complete histories, generator-state digests); every seed value of the family "
+            "{configured, 0, 1, 2^32-1, random} played twice after different histories and compared inside each process (re-seed oracle, own "
+            "obligation line); scenarios: nmap scans, data_manipulation (shipped and generated action maps), uc7 TAP001/TAP003 with generated "
+            "stochastic settings (starting_nodes / target_ips lists, variance, stage probabilities), a generated routed/DMZ scenario with "
+            "random, periodic, probabilistic and data-manipulation agents, nmap, database and web traffic; the seeding path and the consumer "
+            "models against the real set_random_seed / reset / nmap / from_config / topological_sort code through the Lean driver.",
+    "note": "C03-specific: that the inventory is complete is the extractor's job (syntactic, name-based set and identifier tracking; values "
+            "that travel through pydantic serialisation are invisible to the data-flow check); that CPython behaves as rho says (fresh uuids "
+            "distinct, int hashing is the identity, dict order = insertion order) is trusted; F-9 is replayed with a pinned clock because it "
+            "cannot be hit by re-running; the multi-agent Ray environment (never calls set_random_seed) cannot be imported in this sandbox and "
+            "is not covered; torch draws do not occur in the tree and torch is only checked through its state digest.",
+    "technique": "Lean 4 relational proof over an effect-interpreter with an explicit opaque environment and generator families; regenerated "
+                 "inventory with per-site mechanical facts + committed discharge table; regenerated seeding shape; cross-process differential "
+                 "rig with a re-seed oracle",
     "design_ref": "5/C03",
 }
 MODULES = ["PrimaiteModel.Props.C03"]
+# basis of every reason of the discharge table (mirrors `Discharge.basis` in Lemmas/NondetDischarge.lean; the split itself is the
+# theorem C03_discharge_counts)
+BASIS = {"readingLenF9": "openFinding", **{r: "mechanical" for r in ("fixedLenSecret", "clockNotRead", "seededRng", "seeding", "unseededByConfig",
+                                                                     "offline", "setDeclCovered", "setEmpty", "setSingleton", "hashValueDiscarded")},
+         **{r: "trusted" for r in ("hashNotIterated", "setMembershipOnly", "setIntHash", "idTextEqOnly")}}
 EXE = "drv_c03"
 SKIP = {"bad_primaite_session", "no_nodes_links_agents_network", "eval_only_primaite_session", "multi_agent_session", "data_manipulation_marl"}
 QUICK = ["nmap_ping_scan_red_agent_config", "data_manipulation", "nmap_port_scan_red_agent_config"]
@@ -80,45 +110,278 @@ def _n_actions(cfg: Dict) -> int:
     return max(1, len((pa or {}).get("action_space", {}).get("action_map") or {0: 0}))
 
 
-def gen_ops(rng: Rng, n: int, k: int) -> List[Any]:
-    """episode 0 (configured seed) | reset(s) + B | reset(s) + the same B again | reset(None) + C"""
-    s = rng.below(2 ** 31)
-    a = [rng.below(n) for _ in range(k)]
+CASE_WALL: List[Tuple[str, float]] = []
+SERVERS: Optional[xproc.Servers] = None  # fork servers (one per PYTHONHASHSEED) of the current run; None = one fresh interpreter per worker
+SEED_BIG = 2 ** 32 - 1  # the largest value numpy's global generator accepts
+
+
+def seed_class(s, cfg_seed) -> str:
+    if s is None:
+        return "none"
+    if s == 0:
+        return "zero"
+    if s == 1:
+        return "one"
+    if s == cfg_seed:
+        return "configured"
+    if s >= 2 ** 31:
+        return "large"
+    return "other"
+
+
+def gen_ops(rng: Rng, n: int, k: int, cfg_seed: int, extra_random: int = 0, short: bool = False) -> List[Any]:
+    """episode 0 (configured seed c, actions B) | reset(c) B | reset(0) B | reset(c) B | reset(0) B | reset(1) B | reset(BIG) B |
+    reset(1) B | reset(BIG) B | [reset(r) B | reset(r') B | reset(r) B …] | reset(None) C.   Every seed value is played twice THROUGH
+    reset with the SAME actions after DIFFERENT histories (different numbers of draws consumed), so that "did not re-seed" is observable;
+    all seeded episodes use the same actions, so that episodes with different seeds can be told apart (non-vacuity)."""
     b = [rng.below(n) for _ in range(k)]
     c = [rng.below(n) for _ in range(max(2, k // 2))]
-    return a + [["reset", s]] + b + [["reset", s]] + b + [["reset", None]] + c
+    # `short` (quick tier, secondary cases): only the seed value 0 twice; the full family is played by the primary cases
+    plan: List[Any] = [0, 0] if short else [cfg_seed, 0, cfg_seed, 0, 1, SEED_BIG, 1, SEED_BIG]
+    rs = [rng.range(2, 2 ** 31 - 1) for _ in range(extra_random)]
+    plan += rs + rs[::-1]
+    ops: List[Any] = list(b)
+    for sd in plan:
+        ops += [["reset", sd]] + b
+    return ops + [["reset", None]] + c
 
 
-def cases(ctx: Ctx):
-    shipped = scen.shipped()
-    names = [n for n in QUICK if n in shipped] if not ctx.thorough else [n for n in shipped if n not in SKIP]
-    rng = ctx.rng.fork("xproc")
-    for name in names:
-        try:
-            cfg = scen.load_cfg(shipped[name])
-        except Exception:
+def reseed_pairs(ops: List[Any], cfg_seed) -> List[Tuple[int, int, Any]]:
+    """(episode i, episode j, seed): both were started with the same seed and played the same actions (episode 0 = construction
+    with the configured seed)."""
+    eps: List[Tuple[Any, List[Any]]] = [(cfg_seed, [])]
+    for o in ops:
+        if isinstance(o, list) and o and o[0] == "reset":
+            eps.append((o[1], []))
+        else:
+            eps[-1][1].append(o)
+    out = []
+    first: Dict[Any, int] = {}
+    for i, (sd, acts) in enumerate(eps):
+        if sd is None or i == 0:  # episode 0 was CONSTRUCTED, not reset: see `constructed_vs_reset`
             continue
-        cfg = _small_scan(envrig.with_proxy(cfg))
-        cfg.setdefault("game", {})
-        if cfg["game"].get("seed") in (None, -1):
-            cfg["game"]["seed"] = rng.range(0, 10 ** 6)  # the property speaks of a CONFIGURED seed
-        yield name, "shipped-map", cfg, gen_ops(rng.fork(name), _n_actions(cfg), ctx.scale(8, 25))
-        if ctx.thorough or name == "data_manipulation":
+        key = (sd, tuple(acts))
+        if key in first:
+            out.append((first[key], i, sd))
+        else:
+            first[key] = i
+    return out
+
+
+# ------------------------------------------------------------------------------------------------ scenario families
+UC7_START_NODES = ["ST_PROJ-A-PRV-PC-1", "ST_PROJ-B-PRV-PC-2", "ST_PROJ-C-PRV-PC-3"]
+
+
+def tap_variant(cfg: Dict, rng: Rng) -> Dict:
+    """A uc7 scenario whose threat-actor agent has STOCHASTIC settings: a `starting_nodes` list of >= 2 hosts (the shipped files
+    leave it empty), a `target_ips` list, variance > 0 and stage probabilities < 1 - so that every draw site of abstract_tap.py /
+    TAP001.py / TAP003.py is exercised."""
+    cfg = copy.deepcopy(cfg)
+    hosts = {n.get("hostname"): n for n in cfg["simulation"]["network"]["nodes"] if isinstance(n, dict)}
+    for a in cfg.get("agents", []):
+        if a.get("type") not in ("tap-001", "tap-003"):
+            continue
+        st = a.setdefault("agent_settings", {})
+        cands = [h for h in UC7_START_NODES if h in hosts] or [st.get("default_starting_node")]
+        nodes = rng.shuffle(cands)[:rng.range(2, max(2, len(cands)))]
+        if rng.chance(1, 3):
+            nodes.append(nodes[0])  # a host listed twice
+        st["starting_nodes"] = nodes
+        st["start_step"] = rng.range(1, 2)
+        st["frequency"] = rng.range(3, 4)
+        st["variance"] = rng.range(1, 2)
+        st["repeat_kill_chain"] = True
+        kc = st.get("kill_chain") or {}
+        for stage, opts in kc.items():
+            if isinstance(opts, dict) and "probability" in opts:
+                opts["probability"] = rng.choice([0.5, 0.7, 0.9])
+        if a["type"] == "tap-001":
+            ips = [st.get("default_target_ip")] + [hosts[h]["ip_address"] for h in ("ST_DATA-PRV-SRV-DB", "ST_DATA-PRV-SRV-STORAGE", "ST_DMZ-PUB-SRV-WEB")
+                                                   if h in hosts and "ip_address" in hosts[h]]
+            ips = [i for i in dict.fromkeys(ips) if i]
+            if len(ips) >= 2:
+                st["target_ips"] = rng.shuffle(ips)[:rng.range(2, len(ips))]
+    return cfg
+
+
+def generated_variant(rng: Rng) -> Dict:
+    """A generated routed/dmz scenario (harness/gen/scenario.py: database server + clients, web server + browsers, green
+    probabilistic users, periodic and data-manipulation attackers) plus a RANDOM agent and a second periodic agent whose action maps
+    hold nmap ping / port scans of the LANs, database and web requests."""
+    from harness.gen import scenario as gscen
+    fam = rng.choice(["routed", "dmz", "routed"])
+    cfg = gscen.gen_scenario(rng, size=1, family=fam, shadowing=False, off_nodes=False)
+    hosts = gscen.hosts_of(cfg)
+    clients = [h for h in hosts if h["type"] == "computer"] or hosts
+    nets = sorted({h["ip_address"].rsplit(".", 1)[0] + ".0/28" for h in hosts})
+    src = clients[0]["hostname"]
+    amap: Dict[int, Dict] = {0: {"action": "do-nothing", "options": {}}}
+    for net in nets[:3]:
+        amap[len(amap)] = {"action": "node-nmap-ping-scan", "options": {"source_node": src, "target_ip_address": net, "show": False}}
+        amap[len(amap)] = {"action": "node-nmap-port-scan", "options": {"source_node": src, "target_ip_address": net, "target_port": [80, 5432, 53, 21],
+                                                                        "target_protocol": ["tcp", "udp"], "show": False}}
+    amap[len(amap)] = {"action": "node-network-service-recon", "options": {"source_node": src, "target_ip_address": nets[0], "target_port": 80,
+                                                                           "target_protocol": "tcp", "show": False}}
+    for h in clients[:3]:
+        for app in ("web-browser", "database-client"):
+            if app == "web-browser" or any(a["type"] == app for a in h.get("applications", [])):
+                amap[len(amap)] = {"action": "node-application-execute", "options": {"node_name": h["hostname"], "application_name": app}}
+    cfg["agents"].append({"ref": "verif_random_user", "team": "GREEN", "type": "random-agent", "action_space": {"action_map": amap},
+                          "reward_function": {"reward_components": [{"type": "dummy", "weight": 1.0}]}})
+    cfg["agents"].append({"ref": "verif_periodic", "team": "RED", "type": "periodic-agent",
+                          "agent_settings": {"possible_start_nodes": [h["hostname"] for h in clients[:3]], "target_application": "web-browser",
+                                             "start_step": 1, "start_variance": 1, "frequency": 3, "variance": 1}})
+    pa = envrig.proxy_agent_cfg(cfg)
+    if pa is not None:  # the RL agent can scan as well
+        m = pa["action_space"]["action_map"]
+        for e in list(amap.values())[1:4]:
+            m[max(m) + 1] = copy.deepcopy(e)
+    cfg["game"]["max_episode_length"] = 64
+    return cfg
+
+
+NMNE_ALL = {"capture_nmne": True, "nmne_capture_keywords": ["DELETE", "SELECT", "INSERT", "UPDATE", "ENCRYPT"]}
+
+
+def contrast_cfg(cfg: Dict, rng: Rng) -> Dict:
+    """The same scenario with every OPTIONAL process-wide setting at a NON-default value that differs from the case's: NMNE capture
+    switched on with every keyword (off if the case has it on), other observation thresholds, other airspace capacities, another seed,
+    another episode length. Played in the same interpreter BEFORE the case (process history)."""
+    c = copy.deepcopy(cfg)
+    net = c.setdefault("simulation", {}).setdefault("network", {})
+    cur = net.get("nmne_config") or {}
+    net["nmne_config"] = {"capture_nmne": False} if cur.get("capture_nmne") and rng.chance(1, 3) else dict(NMNE_ALL)
+    net["airspace"] = {"frequency_max_capacity_mbps": {"WIFI_2_4": 12.5, "WIFI_5": 37.5}}
+    g = c.setdefault("game", {})
+    g["thresholds"] = {"nmne": {"high": 3, "medium": 2, "low": 1}, "file_access": {"high": 4, "medium": 2, "low": 1},
+                       "app_executions": {"high": 4, "medium": 2, "low": 1}}
+    g["seed"] = rng.range(2, 10 ** 6)
+    g["max_episode_length"] = 17
+    return c
+
+
+def defaults_variant(cfg: Dict) -> Dict:
+    """The scenario with every optional process-wide section LEFT OUT (no nmne_config, no airspace capacities, no thresholds): whatever
+    the code derives from a missing section must be the default, not what an earlier game of the process left behind. Scripted attackers
+    start early so that their traffic (the DELETE query NMNE capture looks for) falls inside the short episodes."""
+    c = copy.deepcopy(cfg)
+    net = c.get("simulation", {}).get("network", {})
+    net.pop("nmne_config", None)
+    net.pop("airspace", None)
+    c.get("game", {}).pop("thresholds", None)
+    for a in c.get("agents", []):
+        st = a.get("agent_settings") or {}
+        if a.get("type") in ("red-database-corrupting-agent", "periodic-agent") and "start_step" in st:
+            st.update(start_step=2, frequency=3, variance=1)
+            st.pop("start_variance", None)
+    return c
+
+
+def warm_specs(cfg: Dict, rng: Rng) -> List[Dict]:
+    """The process histories of a case: [0] the contrast scenario (built, stepped, reset, closed), [1] the shipped data_manipulation
+    scenario (NMNE capture on, DELETE keyword)."""
+    import yaml
+    out = [{"cfg_yaml": yaml.safe_dump(contrast_cfg(cfg, rng), sort_keys=False), "steps": 3, "reset": True}]
+    shipped = scen.shipped()
+    if "data_manipulation" in shipped:
+        dm = scen.load_cfg(shipped["data_manipulation"])
+        dm.setdefault("game", {})["seed"] = rng.range(2, 10 ** 6)
+        out.append({"cfg_yaml": yaml.safe_dump(dm, sort_keys=False), "steps": 4, "reset": False})
+    return out
+
+
+def cases(ctx: Ctx, search: bool = False):
+    """(name, variant, cfg, ops). `search` = the extra family run when an inventory obligation is broken."""
+    shipped = scen.shipped()
+    rng = ctx.rng.fork("xproc" + ("-search" if search else ""))
+    if not search:
+        names = [n for n in QUICK if n in shipped] if not ctx.thorough else [n for n in shipped if n not in SKIP]
+        for idx, name in enumerate(names):
             try:
-                aug = envrig.augmented(cfg, rng.fork(name + "-aug"), ctx.scale(40, 120))
+                cfg = scen.load_cfg(shipped[name])
+            except Exception:
+                continue
+            cfg = _small_scan(envrig.with_proxy(cfg))
+            cfg.setdefault("game", {})
+            if cfg["game"].get("seed") in (None, -1):
+                cfg["game"]["seed"] = rng.range(2, 10 ** 6)  # the property speaks of a CONFIGURED seed
+            stochastic = name in ("data_manipulation",) or ctx.thorough
+            k = ctx.scale(8, 20) if stochastic else ctx.scale(4, 12)
+            yield name, "shipped-map", cfg, gen_ops(rng.fork(name), _n_actions(cfg), k, cfg["game"]["seed"], ctx.scale(0, 1),
+                                                    short=(not ctx.thorough and not stochastic))
+            if ctx.thorough or name == "data_manipulation":
+                try:
+                    aug = envrig.augmented(cfg, rng.fork(name + "-aug"), ctx.scale(40, 120))
+                except Exception as e:
+                    ctx.notes.append(f"{name}: generated action map not built: {type(e).__name__}: {str(e)[:100]}")
+                    aug = None
+                if aug is not None:
+                    aug = _small_scan(aug)
+                    yield name, "generated-map", aug, gen_ops(rng.fork(name + "-augops"), _n_actions(aug), ctx.scale(8, 18), aug["game"]["seed"], 0,
+                                                              short=not ctx.thorough)
+    # the same scenarios with every optional process-wide section left out (played after a history that set them)
+    if not search:
+        for name in (["data_manipulation"] if not ctx.thorough else ["data_manipulation", "uc7_config", "action_penalty", "shared_rewards",
+                                                                      "extended_config", "test_application_install"]):
+            if name not in shipped:
+                continue
+            try:
+                cfg = defaults_variant(envrig.with_proxy(scen.load_cfg(shipped[name])))
+                scen.make_game(cfg)
             except Exception as e:
-                ctx.notes.append(f"{name}: generated action map not built: {type(e).__name__}: {str(e)[:100]}")
-                aug = None
-            if aug is not None:
-                aug = _small_scan(aug)
-                yield name, "generated-map", aug, gen_ops(rng.fork(name + "-augops"), _n_actions(aug), ctx.scale(10, 40))
+                ctx.notes.append(f"{name}: defaults variant not built: {type(e).__name__}: {str(e)[:120]}")
+                continue
+            cfg.setdefault("game", {})["seed"] = rng.range(2, 10 ** 6)
+            r = rng.fork(name + "-defaults")
+            k = ctx.scale(10, 24)
+            acts = [r.below(_n_actions(cfg)) if r.chance(1, 4) else 0 for _ in range(k)]  # mostly do-nothing: let the scripted traffic through
+            yield name, "defaults-after-history", cfg, acts + [["reset", cfg["game"]["seed"]]] + acts + [["reset", None]] + acts[:k // 2]
+    # threat-actor agents with stochastic settings (uc7), and a generated scenario with a random agent + nmap + database + web
+    n_tap = ctx.scale(1, 3) if not search else 2
+    for name in ("uc7_config", "uc7_config_tap003"):
+        if name not in shipped:
+            continue
+        base = envrig.with_proxy(scen.load_cfg(shipped[name]))
+        for i in range(n_tap):
+            r = rng.fork(f"{name}-tap{i}")
+            cfg = tap_variant(base, r)
+            cfg["game"]["seed"] = r.range(2, 10 ** 6)
+            yield name, f"stochastic-tap-{i}", cfg, gen_ops(r, _n_actions(cfg), ctx.scale(10, 20), cfg["game"]["seed"], ctx.scale(0, 1),
+                                                            short=(not ctx.thorough and name != "uc7_config"))
+    for i in range(ctx.scale(1, 6) if not search else 2):
+        r = rng.fork(f"generated-{i}")
+        try:
+            cfg = generated_variant(r)
+            scen.make_game(cfg)
+        except Exception as e:
+            ctx.notes.append(f"generated scenario {i} not built: {type(e).__name__}: {str(e)[:160]}")
+            continue
+        cfg["game"]["seed"] = r.range(2, 10 ** 6)
+        yield "generated", f"random-agent+nmap+db+web-{i}", cfg, gen_ops(r, _n_actions(cfg), ctx.scale(8, 14), cfg["game"]["seed"], ctx.scale(0, 1),
+                                                                         short=False)
 
 
-def variants(ctx: Ctx, rng: Rng) -> List[Dict]:
-    v = [{"hashseed": 1, "loud": False}, {"hashseed": rng.range(2, 4_000_000_000), "loud": True}, {"hashseed": rng.range(2, 4_000_000_000), "loud": False}]
+def choose_hashseeds(ctx: Ctx, rng: Rng, cfgs: List[Dict], n: int) -> Tuple[List[int], Dict]:
+    """The PYTHONHASHSEED values of the run's interpreters: chosen so that the string vocabularies of ALL the cases (every list of
+    strings in the configs, host names, addresses) come out of a set in pairwise different orders (xproc.pick_hashseeds)."""
+    cands = [1] + [rng.range(2, 4_000_000_000) for _ in range(ctx.scale(9, 13))]
     if ctx.thorough:
-        v += [{"hashseed": 0, "loud": True}, {"hashseed": rng.range(2, 4_000_000_000), "loud": True}]
-    return v
+        cands.insert(1, 0)  # hashing disabled
+    vocabs: List[List[str]] = []
+    seen = set()
+    for cfg in cfgs:
+        for v in xproc.string_vocabularies(cfg, cap=24):
+            if tuple(v) not in seen and len(vocabs) < 400:
+                seen.add(tuple(v))
+                vocabs.append(v)
+    return xproc.pick_hashseeds(vocabs, n, cands)
+
+
+def variants(seeds: List[int]) -> List[Dict]:
+    """The interpreters of a case: worker 0 starts fresh; the others have a PROCESS HISTORY (xproc: warm-ups played in the same
+    interpreter before the case); logging fully on / fully off alternates."""
+    hist = [[], [0], [1, 0], [1], [0, 1], [], [0]]
+    return [{"hashseed": hs, "loud": (i % 2 == 1), "warm": hist[i % len(hist)]} for i, hs in enumerate(seeds)]
 
 
 def episodes_of(lines: List[str]) -> List[List[str]]:
@@ -131,9 +394,82 @@ def episodes_of(lines: List[str]) -> List[List[str]]:
     return eps
 
 
-def check_case(name: str, variant: str, cfg: Dict, ops: List[Any], vs: List[Dict]) -> Tuple[List[dict], Dict[str, int], List[str]]:
+def _head_fields(line: str) -> Dict:
+    try:
+        j = json.loads(line)
+        return {"rng": j.get("rng"), "obs": j.get("obs")}
+    except Exception:
+        return {"unparsable": line[:80]}
+
+
+def reseed_oracle(name: str, variant: str, cfg: Dict, ops: List[Any], base_v: Dict, base: List[str]) -> Tuple[List[dict], Dict[str, int]]:
+    """"Re-seeding on reset reproduces the same episode again": every two episodes of ONE process that were started with the same
+    seed (construction with the configured seed counts) and played the same actions must be identical line for line - the generator
+    digests and the first observation on the reset line, every step line, the complete histories."""
+    cfg_seed = (cfg.get("game") or {}).get("seed")
+    eps = episodes_of(base)
+    viol: List[dict] = []
+    cnt: Dict[str, int] = {}
+    pairs = reseed_pairs(ops, cfg_seed)
+    for i, j, sd in pairs:
+        if j >= len(eps) or i >= len(eps) or len(eps[i]) != len(eps[j]):
+            cnt["reseed:pair-not-comparable"] = cnt.get("reseed:pair-not-comparable", 0) + 1
+            continue
+        cls = "configured" if sd == cfg_seed else seed_class(sd, cfg_seed)
+        cnt["reseed:pairs:" + cls] = cnt.get("reseed:pairs:" + cls, 0) + 1
+        cnt["reseed:lines-compared"] = cnt.get("reseed:lines-compared", 0) + len(eps[i])
+        a, b = list(eps[i]), list(eps[j])
+        ha, hb = _head_fields(a[0]), _head_fields(b[0])
+        d = None
+        if ha != hb:
+            d, desc = 0, {"part": "rng" if ha.get("rng") != hb.get("rng") else "obs"}
+            dd = xproc.first_diff([l for l in a[1:] if l.startswith('{"op"')], [l for l in b[1:] if l.startswith('{"op"')])
+            if dd is not None:  # the first OBSERVABLE difference, for the report
+                sa, sb = [l for l in a[1:] if l.startswith('{"op"')], [l for l in b[1:] if l.startswith('{"op"')]
+                desc["first_step_that_differs"] = dd
+                desc["step_diff"] = xproc.describe_diff(sa[dd], sb[dd]) if dd < len(sa) and dd < len(sb) else {"part": "length"}
+        else:
+            dd = xproc.first_diff(a[1:], b[1:])
+            if dd is not None:
+                d = dd + 1
+                desc = xproc.describe_diff(a[d], b[d])
+        if d is not None:
+            sig = {"kind": "reseed-diff", "seed_class": cls, **{k: desc[k] for k in ("part", "action", "field") if k in desc}}
+            viol.append({"sig": sig, "what": f"{name}/{variant}: episode {j} was started with reset(seed={sd}) and played the same actions as episode {i} "
+                                            f"(started with the same seed), but line {d} of the episode differs: {desc}; "
+                                            f"{_excerpt(a[d], b[d])}",
+                         "replay": {"scenario": name, "variant": variant, "cfg_yaml": _yaml(cfg), "ops": ops, "variants": [base_v], "reseed": True,
+                                    "episodes": [i, j], "seed": sd, "a": a[d][:3000], "b": b[d][:3000]}})
+            break
+    # observation only (NOT part of the property: `__init__` does not run setup_for_episode / update_agents, so the first steps of a
+    # merely constructed environment may differ from those after reset - DESIGN 9.6.C04.2): episode 0 vs the episode after reset(configured)
+    if len(eps) > 1 and len(eps[0]) == len(eps[1]):
+        same = [l for l in eps[0][1:] if l.startswith('{"op"')] == [l for l in eps[1][1:] if l.startswith('{"op"')]
+        k0 = "reseed:constructed-episode-equals-reset(configured)-episode" if same else "reseed:constructed-episode-differs-from-reset(configured)-episode"
+        cnt[k0] = cnt.get(k0, 0) + 1
+        if _head_fields(eps[0][0]).get("rng") == _head_fields(eps[1][0]).get("rng"):
+            cnt["reseed:generators-after-construction-equal-those-after-reset(configured)"] = 1
+    # non-vacuity: episodes started with DIFFERENT seeds (same actions) that can be told apart
+    by_seed: Dict[Any, List[str]] = {}
+    for i, j, sd in pairs:
+        if i < len(eps):
+            by_seed.setdefault(sd, [l for l in eps[i][1:] if l.startswith('{"op"')])  # step lines only (no generator digests)
+    vals = list(by_seed.values())
+    cnt["reseed:seed-values"] = len(vals)
+    cnt["reseed:seed-values-distinguishable"] = len({json.dumps(v) for v in vals})
+    return viol, cnt
+
+
+def check_case(name: str, variant: str, cfg: Dict, ops: List[Any], vs: List[Dict], warm: Optional[List[Dict]] = None
+               ) -> Tuple[List[dict], Dict[str, int], List[str]]:
     """Run the workers; returns (violations, counters, base lines)."""
-    res = xproc.run_workers({"cfg": cfg, "ops": ops}, vs, REPO, VERIF)
+    import time as _time
+    t_case = _time.time()
+    warm = warm or []
+    vs = [dict(v, warm=[i for i in (v.get("warm") or []) if i < len(warm)]) for v in vs]
+    res = xproc.run_workers({"cfg": cfg, "ops": ops, "warm": warm}, vs, REPO, VERIF,
+                            servers=None if name.startswith("corpus:") else SERVERS)  # corpus witnesses: fresh interpreters, stored variants
+    CASE_WALL.append((f"{name}/{variant}", round(_time.time() - t_case, 1)))
     viol: List[dict] = []
     cnt = {"workers": len(res), "lines": 0, "raised": 0}
     base_v, base, base_err = res[0]
@@ -142,7 +478,7 @@ def check_case(name: str, variant: str, cfg: Dict, ops: List[Any], vs: List[Dict
         cnt["raised"] += 1
     if not base:
         viol.append({"sig": {"kind": "worker-produced-nothing"}, "what": f"{name}/{variant}: worker printed nothing: {base_err[-300:]}",
-                     "replay": {"scenario": name, "variant": variant, "cfg": cfg, "ops": ops, "variants": vs}})
+                     "replay": {"scenario": name, "variant": variant, "cfg_yaml": _yaml(cfg), "ops": ops, "variants": vs}})
         return viol, cnt, base
     for v, lines, err in res[1:]:
         d = xproc.first_diff(base, lines)
@@ -152,23 +488,30 @@ def check_case(name: str, variant: str, cfg: Dict, ops: List[Any], vs: List[Dict
         b = lines[d] if d < len(lines) else "<stream ended>"
         desc = xproc.describe_diff(a, b) if d < len(base) and d < len(lines) else {"part": "length"}
         sig = {"kind": "cross-process-diff", **{k: desc[k] for k in ("part", "action", "field") if k in desc}}
-        viol.append({"sig": sig, "what": f"{name}/{variant}: line {d} differs between {base_v} and {v}: {desc}; "
+        if (v.get("warm") or []) != (base_v.get("warm") or []):
+            sig["history"] = "differs"   # the two interpreters also differ in what they ran BEFORE the case
+        viol.append({"sig": sig, "what": f"{name}/{variant}: line {d} differs between {_vshort(base_v)} and {_vshort(v)}: {desc}; "
                                         f"{_excerpt(a, b)}",
-                     "replay": {"scenario": name, "variant": variant, "cfg": cfg, "ops": ops, "variants": [base_v, v], "first_diff": d,
+                     "replay": {"scenario": name, "variant": variant, "cfg_yaml": _yaml(cfg), "ops": ops, "variants": [base_v, v], "warm": warm, "first_diff": d,
                                 "a": a[:4000], "b": b[:4000], "stderr": err[-500:]}})
         break
-    # re-seeding: episodes 1 and 2 were started with reset(seed=s) and played the same actions
-    eps = episodes_of(base)
-    if len(eps) >= 3 and len(eps[1]) == len(eps[2]):
-        d = xproc.first_diff(eps[1], eps[2])
-        if d is not None:
-            desc = xproc.describe_diff(eps[1][d], eps[2][d])
-            sig = {"kind": "reseed-diff", **{k: desc[k] for k in ("part", "action", "field") if k in desc}}
-            viol.append({"sig": sig, "what": f"{name}/{variant}: the episode after reset(seed=s) is not reproduced by a second reset(seed=s): "
-                                            f"line {d} of the episode: {desc}; {_excerpt(eps[1][d], eps[2][d])}",
-                         "replay": {"scenario": name, "variant": variant, "cfg": cfg, "ops": ops, "variants": [base_v], "reseed": True,
-                                    "a": eps[1][d][:4000], "b": eps[2][d][:4000]}})
+    cnt["workers-with-history"] = sum(1 for v, _, _ in res if v.get("warm"))
+    cnt["warmup-failed"] = sum(err.count("WARMUP-FAILED") for _, _, err in res)
+    rv, rc = reseed_oracle(name, variant, cfg, ops, base_v, base)
+    viol += rv
+    cnt.update(rc)
     return viol, cnt, base
+
+
+def _yaml(cfg: Dict) -> str:
+    """Replay records carry the scenario as YAML text: JSON would turn integer keys (router ports, action maps) into strings."""
+    import yaml
+    return yaml.safe_dump(cfg, sort_keys=False)
+
+
+def _vshort(v: Dict) -> str:
+    h = v.get("warm") or []
+    return f"{{hashseed {v.get('hashseed')}, {'loud' if v.get('loud') else 'quiet'}, history {h if h else 'none (fresh)'}}}"
 
 
 def _excerpt(a: str, b: str) -> str:
@@ -192,12 +535,12 @@ def f9_cfg(bandwidth: Optional[float]) -> Dict:
 
 def f9_try(bandwidth: float, pin_a: Dict, pin_b: Dict) -> Optional[dict]:
     cfg = f9_cfg(bandwidth)
-    r = xproc.run_workers({"cfg": cfg, "ops": [1, 1]}, [{"hashseed": 1, "pin": pin_a}, {"hashseed": 1, "pin": pin_b}], REPO, VERIF)
+    r = xproc.run_workers({"cfg": cfg, "ops": [1, 1]}, [{"hashseed": 1, "pin": pin_a}, {"hashseed": 1, "pin": pin_b}], REPO, VERIF, servers=SERVERS)
     a, b = r[0][1], r[1][1]
     d = xproc.first_diff(a, b)
     if d is None or not a or not b:
         return None
-    return {"cfg": cfg, "ops": [1, 1], "variants": [{"hashseed": 1, "pin": pin_a}, {"hashseed": 1, "pin": pin_b}], "first_diff": d,
+    return {"cfg_yaml": _yaml(cfg), "ops": [1, 1], "variants": [{"hashseed": 1, "pin": pin_a}, {"hashseed": 1, "pin": pin_b}], "first_diff": d,
             "a": a[d][:3000] if d < len(a) else None, "b": b[d][:3000] if d < len(b) else None, "bandwidth": bandwidth}
 
 
@@ -205,7 +548,7 @@ def f9_search(pin_a: Dict, pin_b: Dict) -> Optional[dict]:
     """Measure the step's link load under both pins on an uncongested link, then put the bandwidth between m frames of the one
     size and m frames of the other, for the m at which the busiest admission test sits."""
     r = xproc.run_workers({"cfg": f9_cfg(None), "ops": [1, 1], "probe": {"link_loads": True}},
-                          [{"hashseed": 1, "pin": pin_a}, {"hashseed": 1, "pin": pin_b}], REPO, VERIF)
+                          [{"hashseed": 1, "pin": pin_a}, {"hashseed": 1, "pin": pin_b}], REPO, VERIF, servers=SERVERS)
     try:
         la = float.fromhex(json.loads(r[0][1][-1])["probe"]["link_loads"][0])
         lb = float.fromhex(json.loads(r[1][1][-1])["probe"]["link_loads"][0])
@@ -293,6 +636,25 @@ def site_rig(ctx: Ctx):
         lines.append(sites.canon_line(o))
         impl.append(sites.canon_impl(o, sites.fresh_ids(rng)))
         meta.append({"site": "canon", "outs": o})
+    # the seeding path: set_random_seed(x, g) and env.reset(seed=x) for every x of the family, against the model of the code's shape
+    env = scen.make_env(_seed_env_cfg())
+    try:
+        for x in sites.SEED_ARGS + [rng.range(3, 2 ** 31) for _ in range(ctx.scale(2, 20))]:
+            for g in (False, True):
+                xs = "none" if x is None else str(x)
+                lines.append(f"seedact set {int(g)} {xs}")
+                impl.append(sites.seedact_set_impl(x, g))
+                meta.append({"site": "seedact", "fn": "set_random_seed", "seed": x, "generate_seed_value": g})
+                lines.append(f"seedact reset {int(g)} {xs}")
+                impl.append(sites.seedact_reset_impl(env, x, g))
+                meta.append({"site": "seedact", "fn": "reset", "seed": x, "generate_seed_value": g})
+    finally:
+        env.close()
+    import secrets as _secrets
+    for nbytes in list(range(0, 40)) + [64, 100]:
+        lines.append(f"toklen {nbytes}")
+        impl.append(str(len(_secrets.token_urlsafe(nbytes))))
+        meta.append({"site": "toklen", "nbytes": nbytes})
     model = run_driver(EXE, lines)
     bad = 0
     for q, a, b, m in zip(lines, impl, model, meta):
@@ -304,17 +666,39 @@ def site_rig(ctx: Ctx):
             raise RuntimeError(f"driver rejected {q!r}")
         if a != b:
             bad += 1
-            ctx.violation({"kind": "model-vs-impl", "site": site}, f"consumer `{site}`: real code gives {a!r}, proved model {b!r} on `{q}`",
+            sig = {"kind": "model-vs-impl", "site": site}
+            if site == "seedact":
+                sig.update(fn=m["fn"], seed_class=seed_class(m["seed"], None) if m["seed"] is None or m["seed"] >= 0 else "negative")
+            ctx.violation(sig, f"`{site}`: real code gives {a!r}, proved model {b!r} on `{q}`" + (
+                f" ({m['fn']}(seed={m['seed']!r}), generate_seed_value={m['generate_seed_value']})" if site == "seedact" else ""),
                           {"site_case": m, "line": q, "impl": a, "model": b})
     if len(model) != len(impl):
         bad += 1
-    ctx.oblige("rig:consumer models agree with nmap / from_config / topological_sort / the canonicaliser", "correspondence", bad == 0,
+    ctx.oblige("rig:consumer and seeding-path models agree with nmap / from_config / topological_sort / set_random_seed / reset / the canonicaliser", "correspondence", bad == 0,
                f"{bad} of {len(lines)} lines differ")
     for q, b in list(zip(lines, model))[:3]:
         ctx.sample({"driver_line": q[:120], "answer": b[:120]}, cap=8)
 
 
+def _seed_env_cfg() -> Dict:
+    shipped = scen.shipped()
+    cfg = scen.load_cfg(shipped["data_manipulation"])
+    cfg.setdefault("game", {})["seed"] = 11
+    return cfg
+
+
 def _site_impl(c: dict, game, lookup) -> str:
+    if c["site"] == "seedact":
+        if c["fn"] == "set_random_seed":
+            return sites.seedact_set_impl(c["seed"], c["generate_seed_value"])
+        env = scen.make_env(_seed_env_cfg())
+        try:
+            return sites.seedact_reset_impl(env, c["seed"], c["generate_seed_value"])
+        finally:
+            env.close()
+    if c["site"] == "toklen":
+        import secrets as _secrets
+        return str(len(_secrets.token_urlsafe(c["nbytes"])))
     if c["site"] == "topo":
         return " ".join(map(str, sites.topo_impl([(k, v) for k, v in c["graph"]])))
     if c["site"] == "ports":
@@ -350,7 +734,9 @@ def probe_rig(ctx: Ctx):
         else envrig.with_proxy(copy.deepcopy(sites.ONE_NODE))
     cfg.setdefault("game", {})["seed"] = 5
     vs = [{"hashseed": 1}, {"hashseed": rng.range(2, 4_000_000_000)}, {"hashseed": rng.range(2, 4_000_000_000)}]
-    res = xproc.run_workers({"cfg": cfg, "ops": [0], "probe": probe}, vs, REPO, VERIF)
+    if SERVERS is not None and len(SERVERS.procs) >= 3:
+        vs = [{"hashseed": h} for h in list(SERVERS.procs)[:3]]  # the run's interpreters (chosen for pairwise different set orders)
+    res = xproc.run_workers({"cfg": cfg, "ops": [0], "probe": probe}, vs, REPO, VERIF, servers=SERVERS)
     base = res[0][1]
     ok = bool(base) and base[-1].startswith('{"probe"')
     for v, lines, err in res[1:]:
@@ -366,7 +752,7 @@ def probe_rig(ctx: Ctx):
                 pass
             ctx.violation({"kind": "site-probe-differs-across-processes", "probe": key},
                           f"stand-alone evaluation of inventory site `{key}` differs between {res[0][0]} and {v}: {_excerpt(a, b)}",
-                          {"cfg": cfg, "ops": [0], "probe": probe, "variants": [res[0][0], v], "first_diff": d})
+                          {"cfg_yaml": _yaml(cfg), "ops": [0], "probe": probe, "variants": [res[0][0], v], "first_diff": d})
             break
     if ok:
         pr = json.loads(base[-1])["probe"]
@@ -391,70 +777,50 @@ def replay(rec: dict) -> bool:
         from primaite.utils.validation.port import PORT_LOOKUP
         model = run_driver(EXE, [rp["line"]])
         return model and model[0] == _site_impl(rp["site_case"], None, PORT_LOOKUP)
-    spec = {"cfg": rp["cfg"], "ops": rp["ops"]}
+    import yaml
+    spec = {"ops": rp["ops"], "warm": rp.get("warm") or []}
+    if "cfg_yaml" in rp:
+        spec["cfg_yaml"] = rp["cfg_yaml"]
+        cfg = yaml.safe_load(rp["cfg_yaml"])
+    else:
+        spec["cfg"] = cfg = rp["cfg"]
     if "probe" in rp:
         spec["probe"] = rp["probe"]
     res = xproc.run_workers(spec, rp["variants"], REPO, VERIF)
     base = res[0][1]
-    if not base:
-        return False
+    if not base or base[0].startswith('{"raised"'):
+        return False  # the replay could not be played at all: not a pass
     if rp.get("reseed"):
-        eps = episodes_of(base)
-        return len(eps) >= 3 and xproc.first_diff(eps[1], eps[2]) is None
+        viol, _ = reseed_oracle(rp.get("scenario", "?"), rp.get("variant", "?"), cfg, rp["ops"], rp["variants"][0], base)
+        return not viol
     return all(xproc.first_diff(base, lines) is None for _, lines, _ in res[1:])
 
 
-def run(ctx: Ctx):
-    with lean_lock():
-        ok_x = ctx.extract("Nondet", x_nondet.emit)
-        ctx.prove(MODULES, exes=[EXE], leanchecker=ctx.thorough)
-    # -- the inventory, as seen by the extractor and by an independent textual count
-    if ok_x:
-        inv = x_nondet.collect()
-        kinds: Dict[str, int] = {}
-        for s in inv:
-            kinds[s[2]] = kinds.get(s[2], 0) + 1
-            ctx.count("inventory:" + s[2])
-        raw = raw_counts()
-        agree = all(raw[k] == kinds.get(k, 0) for k in raw)
-        ctx.oblige("extract:Nondet agrees with an independent textual count of uuid/secrets/clock/hash()/id() calls", "extractor", agree,
-                   f"textual {raw} vs inventory { {k: kinds.get(k, 0) for k in raw} }")
-        ctx.cov["inventory"] = {"sites": len(inv), "by_kind": kinds, "set_uses_not_listed": x_nondet.stats()}
-        table = (VERIF / "lean" / "PrimaiteModel" / "Lemmas" / "NondetDischarge.lean").read_text()
-        reasons = re.findall(r"⟩, \.(\w+)\)", table)
-        by_reading = {"fixedLenSecret", "clockNotRead", "unseededByConfig", "hashNotIterated", "hashValueDiscarded", "offline", "setMembershipOnly", "setIntHash",
-                      "setCycleCheck", "setDeclCovered", "seeding"}
-        ctx.cov["discharges"] = {"total": len(reasons), "by_lemma": sum(1 for r in reasons if r not in by_reading and r != "readingLenF9"),
-                                 "by_reading": sum(1 for r in reasons if r in by_reading),
-                                 "open_finding_F9": sum(1 for r in reasons if r == "readingLenF9")}
-    ctx.cov["rule"] = ("cross-process cases = (scenario, action map, operation list = episode with the configured seed | reset(s) + B | reset(s) + B "
-                       "again | reset() + C) x 3-5 fresh interpreters (distinct PYTHONHASHSEED, logging all on / all off); every compared line "
-                       "(one per step/reset, plus complete histories per episode) is one evaluation; non-trivial = step lines whose RL action is "
-                       "not do-nothing or in which some scripted agent acted; component cases = one driver line each (non-trivial = at least two "
-                       "elements); distinct by canonical JSON")
-    # -- corpus first: the F-8 witness must no longer differ
-    site_rig(ctx)
-    probe_rig(ctx)
-    all_cases = []
-    for f in sorted((VERIF / "corpus" / "C03").glob("xproc_*.json")):
-        c = json.loads(f.read_text())
-        shipped = scen.shipped()
-        cfg = _small_scan(envrig.with_proxy(scen.load_cfg(shipped[c["scenario"]]))) if "scenario" in c else c["cfg"]
-        cfg.setdefault("game", {}).setdefault("seed", c.get("seed", 7))
-        all_cases.append(("corpus:" + f.name, c.get("variant", "-"), cfg, c["ops"], c["variants"]))
-    vr = ctx.rng.fork("variants")
-    for name, variant, cfg, ops in cases(ctx):
-        all_cases.append((name, variant, cfg, ops, variants(ctx, vr)))
+def table_sites() -> List[Tuple[str, str, str, str, int]]:
+    """The sites of the COMMITTED discharge table (parsed from the Lean source), to tell which sites of the current tree are new."""
+    txt = (VERIF / "lean" / "PrimaiteModel" / "Lemmas" / "NondetDischarge.lean").read_text()
+    out = []
+    for m in re.finditer(r'\(⟨"((?:[^"\\]|\\.)*)", "((?:[^"\\]|\\.)*)", \.(\w+), "((?:[^"\\]|\\.)*)", (\d+)⟩, \.(\w+)\)', txt):
+        out.append((m.group(1), m.group(2), m.group(3), m.group(4), int(m.group(5))))
+    return out
+
+
+def run_cases(ctx: Ctx, all_cases, tag: str = "xproc") -> int:
+    """Run (name, variant, cfg, ops, variants) cases in a small pool; record evidence; returns the number of cases without violation."""
     agree = 0
     with cf.ThreadPoolExecutor(ctx.scale(4, 5)) as ex:
-        f9_future = ex.submit(f9_compute)  # the known finding is replayed alongside
         futs = [(c, ex.submit(check_case, *c)) for c in all_cases]
         for c, fu in futs:
-            name, variant, cfg, ops, vs = c
+            name, variant, cfg, ops, vs = c[:5]
             viol, cnt, base = fu.result()
-            ctx.count("xproc:cases")
-            ctx.count("xproc:workers", cnt["workers"])
-            ctx.count("xproc:case-ended-by-exception", cnt["raised"])
+            ctx.count(f"{tag}:cases")
+            ctx.count(f"{tag}:workers", cnt["workers"])
+            ctx.count(f"{tag}:workers-with-process-history", cnt.get("workers-with-history", 0))
+            ctx.count(f"{tag}:warm-ups-that-raised", cnt.get("warmup-failed", 0))
+            ctx.count(f"{tag}:case-ended-by-exception", cnt["raised"])
+            for k, v in cnt.items():
+                if k.startswith("reseed:"):
+                    ctx.count(k, v)
             ctx.cov["traces_validated_against_impl"] += cnt["workers"]
             for i, l in enumerate(base):
                 nontrivial = '"op": 0' not in l[:12] or '"st": "success", "d": {"' in l
@@ -462,13 +828,144 @@ def run(ctx: Ctx):
             for l in base:
                 for m in re.finditer(r'"a": "([\w-]+)"', l[:20000] if l.startswith('{"op"') else ""):
                     ctx.count("action:" + m.group(1))
+            agents = {}
+            try:
+                agents = {a["ref"]: a.get("type") for a in cfg.get("agents", [])}
+            except Exception:
+                pass
+            for t in set(agents.values()):
+                ctx.count(f"{tag}:cases-with-agent-type:{t}")
             if not viol:
                 agree += 1
                 ctx.sample({"scenario": name, "variant": variant, "ops": ops[:14], "processes": vs, "lines": len(base),
-                            "line1": base[1][:300] if len(base) > 1 else None}, cap=8)
+                            "reseed": {k: v for k, v in cnt.items() if k.startswith("reseed:")},
+                            "line1": base[1][:300] if len(base) > 1 else None}, cap=10)
             for v in viol:
                 ctx.violation(v["sig"], v["what"], v["replay"])
-    ctx.oblige("rig:R-env identical canonical trajectories across processes and across re-seeded episodes", "correspondence",
-               agree == len(all_cases), f"{len(all_cases) - agree} of {len(all_cases)} cases differ")
+    return agree
+
+
+def run(ctx: Ctx):
+    import time as _time
+    t0 = _time.time()
+    phase: Dict[str, float] = {}
+
+    def mark(name: str):
+        nonlocal t0
+        phase[name] = round(_time.time() - t0, 1)
+        t0 = _time.time()
+    ctx.cov["phase_s"] = phase
+    with lean_lock():
+        ok_x = ctx.extract("Nondet", x_nondet.emit)
+        ok_s = ctx.extract("NondetSeeding", x_seeding.emit)
+        ctx.extract("SharedState", x_shared.emit)
+        proved = ctx.prove(MODULES, exes=[EXE], leanchecker=ctx.thorough)
+    mark("extract+prove")
+    # -- the inventory, as seen by the extractor and by an independent textual count
+    new_sites: List[Tuple] = []
+    if ok_x:
+        rows = x_nondet.collect_with_facts()
+        inv = [r[:5] for r in rows]
+        kinds: Dict[str, int] = {}
+        for s in inv:
+            kinds[s[2]] = kinds.get(s[2], 0) + 1
+            ctx.count("inventory:" + s[2])
+        for r in rows:
+            ctx.count("fact:" + r[5].split()[0].lstrip("."))
+        raw = raw_counts()
+        agree = all(raw[k] == kinds.get(k, 0) for k in raw)
+        ctx.oblige("extract:Nondet agrees with an independent textual count of uuid/secrets/clock/hash()/id() calls", "extractor", agree,
+                   f"textual {raw} vs inventory { {k: kinds.get(k, 0) for k in raw} }")
+        ctx.cov["inventory"] = {"sites": len(inv), "by_kind": kinds, "set_uses_not_listed": x_nondet.stats()}
+        committed = table_sites()
+        new_sites = [s for s in inv if s not in committed]
+        gone = [s for s in committed if s not in inv]
+        ctx.cov["inventory"]["new_sites"] = [list(s) for s in new_sites]
+        ctx.cov["inventory"]["vanished_sites"] = [list(s) for s in gone]
+        table = (VERIF / "lean" / "PrimaiteModel" / "Lemmas" / "NondetDischarge.lean").read_text()
+        reasons = re.findall(r"⟩, \.(\w+)\)", table)
+        ctx.cov["discharges"] = {"total": len(reasons), **{b: sum(1 for r in reasons if BASIS.get(r, "lemma") == b)
+                                                           for b in ("lemma", "mechanical", "trusted", "openFinding")},
+                                 "by_reading_only": 0}
+    ctx.cov["rule"] = ("cross-process cases = (scenario, action map, operation list = episode with the configured seed c | reset(c) B | reset(0) B | "
+                       "reset(c) B | reset(0) B | reset(1) B | reset(2^32-1) B | reset(1) B | reset(2^32-1) B | … | reset() C) x 3-4 interpreters: one fork "
+                       "server per PYTHONHASHSEED value imports the code once and forks a child per case (fresh post-import state, own session directory); "
+                       "the hash seeds are chosen so that the cases' string vocabularies leave a set in pairwise different orders; worker 0 starts fresh, "
+                       "the others first build / step / reset / close other scenarios in the same process (process history); logging all on / all off; "
+                       "corpus witnesses run in separately started interpreters with their stored variants; "
+                       "every compared line (one per step/reset, plus complete histories and generator digests per episode) is one evaluation; "
+                       "non-trivial = step lines whose RL action is not do-nothing or in which some scripted agent acted; component cases = one driver "
+                       "line each (non-trivial = at least two elements); distinct by canonical JSON")
+    # -- corpus first: the F-8 witness must no longer differ
+    mark("inventory")
+    global SERVERS
+    gen_cases = list(cases(ctx))
+    n_workers = 3 + (2 if ctx.thorough else 0)
+    seeds, hs_info = choose_hashseeds(ctx, ctx.rng.fork("variants"), [c[2] for c in gen_cases], n_workers)
+    ctx.cov["hashseed_selection"] = {"seeds": seeds, **hs_info}
+    SERVERS = xproc.Servers(REPO, VERIF)
+    starter = cf.ThreadPoolExecutor(1)
+    started = starter.submit(SERVERS.start, seeds)  # the imports of the fork servers overlap with the component rig
+    mark("case-generation+hashseed-selection")
+    try:
+        _run_rigs(ctx, gen_cases, seeds, started, proved, new_sites, mark)
+    finally:
+        SERVERS.close()
+        SERVERS = None
+        starter.shutdown(wait=False)
+
+
+def _run_rigs(ctx: Ctx, gen_cases, seeds: List[int], started, proved: bool, new_sites: List[Tuple], mark) -> None:
+    site_rig(ctx)
+    mark("site-rig")
+    started.result()
+    mark("fork-servers-ready")
+    all_cases = []
+    shipped = scen.shipped()
+    for f in sorted((VERIF / "corpus" / "C03").glob("xproc_*.json")):
+        c = json.loads(f.read_text())
+        if "cfg_yaml" in c:  # YAML text: integer keys (action maps, ports) survive
+            import yaml
+            cfg = yaml.safe_load(c["cfg_yaml"])
+        else:
+            cfg = _small_scan(envrig.with_proxy(scen.load_cfg(shipped[c["scenario"]]))) if "scenario" in c else c["cfg"]
+        cfg.setdefault("game", {}).setdefault("seed", c.get("seed", 7))
+        all_cases.append(("corpus:" + f.name, c.get("variant", "-"), cfg, c["ops"], c["variants"]))
+    wr = ctx.rng.fork("warm")
+    for name, variant, cfg, ops in gen_cases:
+        all_cases.append((name, variant, cfg, ops, variants(seeds), warm_specs(cfg, wr.fork(name + variant))))
+    # corpus witnesses first, then the generated cases longest first (uc7 takes several times longer than the small scenarios)
+    n_corpus = sum(1 for c in all_cases if c[0].startswith("corpus:"))
+    all_cases = all_cases[:n_corpus] + sorted(all_cases[n_corpus:], key=lambda c: -len(c[3]) * len(_yaml(c[2])))
+    with cf.ThreadPoolExecutor(2) as ex0:
+        f9_future = ex0.submit(f9_compute)        # the known finding is replayed alongside
+        probe_future = ex0.submit(probe_rig, ctx)  # and so are the stand-alone site probes (three interpreters)
+        agree = run_cases(ctx, all_cases)
+        mark("cross-process-cases")
+        probe_future.result()
+        f9_results = f9_future.result()
+        mark("probe+f9-tail")
+    ctx.oblige("rig:R-env identical canonical trajectories across processes", "correspondence",
+               not any(v["sig"].get("kind") in ("cross-process-diff", "worker-produced-nothing") for v in ctx.violations),
+               f"{len(all_cases) - agree} of {len(all_cases)} cases have a violation")
+    n_pairs = sum(v for k, v in ctx.hist.items() if k.startswith("reseed:pairs:"))
+    ctx.oblige("oracle:re-seeding on reset reproduces the same episode (every seed class: configured / 0 / 1 / large)", "correspondence",
+               not any(v["sig"].get("kind") == "reseed-diff" for v in ctx.violations) and n_pairs > 0
+               and all(ctx.hist.get("reseed:pairs:" + c, 0) > 0 for c in ("configured", "zero", "one", "large")),
+               f"{n_pairs} same-seed episode pairs compared")
+    ctx.cov["reseed_oracle"] = {k[7:]: v for k, v in ctx.hist.items() if k.startswith("reseed:")}
+    ctx.cov["case_wall_s"] = dict(CASE_WALL)
+    # -- search: a broken inventory / seeding obligation without a concrete input so far -> drive the code of the new sites harder
+    unlisted = [v for v in ctx.violations if v["sig"].get("kind") != "frame-size-depends-on-unseeded-text-length"]
+    if (not proved or new_sites) and not unlisted:
+        extra = []
+        sr = ctx.rng.fork("search-variants")
+        search_cases = list(cases(ctx, search=True))
+        seeds5, _ = choose_hashseeds(ctx, sr, [c[2] for c in search_cases], len(seeds) + 2)
+        for name, variant, cfg, ops in search_cases:
+            extra.append((name, "search:" + variant, cfg, ops, variants(seeds5), warm_specs(cfg, sr.fork(name + variant))))
+        ctx.notes.append(f"search: {len(new_sites)} site(s) not in the committed table ({[s[:3] for s in new_sites][:4]}); "
+                         f"ran {len(extra)} further cases with 5 interpreters each")
+        run_cases(ctx, extra, tag="search")
     # -- known finding, replayed on the implementation
-    f9_record(ctx, f9_future.result())
+    f9_record(ctx, f9_results)
